@@ -308,6 +308,59 @@ async fn run_listeners(log: &Log, r: &mut Rng, n: u64) {
     }
 }
 
+/// Hostile frames to the real server through TLS (correct password first): the connection must end when the peer
+/// ends it, nothing may panic, and a session of another client keeps working.
+async fn run_server_tls(log: &Log, r: &mut Rng, n: u64) {
+    let server = net::start_server(PaddingFactory::default()).await;
+    let pool = SessionPoolConfig { check_interval: Duration::from_secs(30), idle_timeout: Duration::from_secs(60), min_idle_sessions: 1 };
+    let client = net::make_client(&server, net::PASSWORD, PaddingFactory::default(), pool);
+    let socks = net::start_socks5(client.clone()).await;
+    let echo = net::start_target("127.0.0.1:0", TargetMode::Echo).await;
+    let cfg = anytls_rs::util::tls::create_client_config().unwrap();
+    let connector = tokio_rustls::TlsConnector::from(cfg);
+    for i in 0..n {
+        let panics0 = PANICS.load(Ordering::SeqCst);
+        let mut bytes: Vec<u8> = anytls_rs::hash_password(net::PASSWORD).to_vec();
+        let pad = r.range(0, 40) as usize; bytes.extend_from_slice(&(pad as u16).to_be_bytes()); bytes.extend(std::iter::repeat(0u8).take(pad));
+        if r.chance(3, 4) { bytes.extend_from_slice(&frame_bytes(4, 0, *r.pick(&[&b"v=2\npadding-md5=x"[..], b"v=99999999999", b"\xff\xfe=\x00", b"", b"v=2"]))); }
+        let mut dest = vec![1u8, 127, 0, 0, 1]; dest.extend_from_slice(&echo.addr.port().to_be_bytes());
+        for _ in 0..r.range(1, 8) {
+            let cmd = match r.below(4) { 0 => r.next() as u8, _ => r.below(11) as u8 };
+            let sid = *r.pick(&[0u32, 1, 1, 2, 77, 0xffff_ffff]);
+            let pay: Vec<u8> = match r.below(6) { 0 => vec![], 1 => dest.clone(), 2 => payload(r, "text-nonascii"), 3 => payload(r, "scheme-huge"), 4 => (0..r.range(1, 70) as usize).map(|_| r.next() as u8).collect(), _ => payload(r, "settings-odd") };
+            let mut f = frame_bytes(cmd, sid, &pay[..pay.len().min(65535)]);
+            if r.chance(1, 8) { let k = r.range(1, f.len() as u64 - 1) as usize; f.truncate(k); }        // cut inside a frame
+            if r.chance(1, 8) { let k = r.below(f.len() as u64) as usize; f[k] ^= 1 << r.below(8); }      // bit flip (incl. length field)
+            bytes.extend_from_slice(&f);
+        }
+        let mut closed = false;
+        if let Ok(tcp) = tokio::net::TcpStream::connect(&server).await {
+            let name = tokio_rustls::rustls::pki_types::ServerName::IpAddress(std::net::IpAddr::from([127, 0, 0, 1]).into());
+            if let Ok(mut tls) = connector.connect(name, tcp).await {
+                let mut at = 0usize;
+                while at < bytes.len() { let k = (r.range(1, 2000) as usize).min(bytes.len() - at); let _ = tls.write_all(&bytes[at..at + k]).await; let _ = tls.flush().await; at += k; if r.chance(1, 3) { tokio::time::sleep(Duration::from_millis(1)).await; } }
+                tokio::time::sleep(Duration::from_millis(20)).await;
+                let _ = tls.shutdown().await;
+                let mut buf = [0u8; 4096];
+                let dl = tokio::time::Instant::now() + Duration::from_millis(4000);
+                loop { match tokio::time::timeout_at(dl, tls.read(&mut buf)).await { Err(_) => break, Ok(Ok(0)) | Ok(Err(_)) => { closed = true; break } Ok(Ok(_)) => {} } }
+            }
+        }
+        // a session of another client on the same server still works
+        let mut sibling = false;
+        if let Ok(mut c) = tokio::net::TcpStream::connect(&socks).await {
+            let mut m = vec![5u8, 1, 0, 5, 1, 0, 1, 127, 0, 0, 1]; m.extend_from_slice(&echo.addr.port().to_be_bytes());
+            let _ = c.write_all(&m).await;
+            let mut rep = [0u8; 12];
+            if tokio::time::timeout(Duration::from_secs(5), c.read_exact(&mut rep)).await.map(|x| x.is_ok()).unwrap_or(false) && rep[3] == 0 {
+                let _ = c.write_all(b"echo?").await; let mut b = [0u8; 5];
+                sibling = tokio::time::timeout(Duration::from_secs(3), c.read_exact(&mut b)).await.map(|x| x.is_ok()).unwrap_or(false) && &b == b"echo?";
+            }
+        }
+        log.block(json!({"kind": "server-tls", "i": i, "len": bytes.len()}), vec![json!({"ev": "hlisten", "kind": "server-tls", "o": {"closed": closed, "sibling": sibling, "panics": PANICS.load(Ordering::SeqCst) - panics0}})]);
+    }
+}
+
 /// garbage inside a UDP-over-TCP stream: the stream's handler ends, the session and its other streams go on
 async fn run_udp_garbage(log: &Log, r: &mut Rng, n: u64) {
     for i in 0..n {
@@ -374,6 +427,7 @@ pub fn run(args: &Args, log: &Log) -> Result<(), String> {
         rt.block_on(async {
             run_listeners(log, &mut r, if thorough { 1500 } else { 160 }).await;
             run_udp_garbage(log, &mut r, if thorough { 300 } else { 20 }).await;
+            run_server_tls(log, &mut r, if thorough { 1500 } else { 80 }).await;
         });
         rt.shutdown_timeout(Duration::from_millis(200));
     }
